@@ -845,3 +845,4 @@ StandIn("C13/sampler-sequences", "C13",
         "continued from the seed-determined start; reset-by-seed twin", "80 objects", _c13s_cases, _c13s_check)
 
 from runtime import scopes_e2e  # noqa: E402,F401  (registers the Calibrator-level stand-ins)
+from runtime import scopes_loss  # noqa: E402,F401
